@@ -278,3 +278,37 @@ def declare_interrupt(spec):
              "and individual.original_service_start_date == old(individual.service_start_date)"),
         ],
         props=["C12", "C11", "C02"])
+
+
+def declare_slotted(spec):
+    """the slotted-service event (C12): services start only here, at most the slot size per slot"""
+    M = spec.macros
+    add(spec, "Node.interrupt_slotted_services", inline=True)
+    add(spec, "Node::Node.slotted_service", loop_assumes_inv=True,
+        requires=[("scope:no-pre-emptive-capacitated-slots (interrupt_slotted_services then does nothing; sorting by a tuple key is outside the verified subset)",
+                   "is_obj(self.schedule, 'Slotted') and not (as_obj(self.schedule, 'Slotted').capacitated and as_obj(self.schedule, 'Slotted').preemption is not False)"),
+                  INV("slot_ok(as_obj(self.schedule, 'Slotted'))"), "self.slotted and self.c == 0",
+                  INV("shape(self)"), INV("net_ok(self)"), INV("float_clock(self)"), INV("has_servers(self)"), INV("dyn_ok(self)"), INV("pop_fwd(self)"),
+                  INV("all_waiting_ok(self)"), "is_fin(self.now)", "as_obj(self.schedule, 'Slotted').slot_size >= 0",
+                  INV("self.number_interrupted_individuals == len(self.interrupted_individuals)"),
+                  INV("implies(self.number_interrupted_individuals > 0, interrupted_head_ok(self))"),
+                  INV("self.number_in_service >= 0 and self.number_of_individuals >= 0"),
+                  INV("implies(self.dynamic_classes, forall_in(self.individuals, lambda q: forall_in(q, lambda i: has(i, 'class_change_date'))))")],
+        modifies=["*"], allocates="any", raises=[("ValueError", "True")],
+        expect_calls={"get_next_slot": 1},
+        at_call={"get_next_slot": [
+            ("C12:at-most-the-slot-size-services-start-in-a-slot",
+             "self.number_in_service <= old(self.number_in_service) + old(as_obj(self.schedule, 'Slotted').slot_size)"),
+            ("C12:under-capacitated-slots-at-most-the-slot-size-is-in-service-right-after-the-slot",
+             "implies(old(as_obj(self.schedule, 'Slotted').capacitated) and old(self.number_in_service) <= old(as_obj(self.schedule, 'Slotted').slot_size), "
+             "self.number_in_service <= old(as_obj(self.schedule, 'Slotted').slot_size))"),
+            ("C12:never-more-starts-than-customers-present", "self.number_in_service <= old(self.number_in_service) + old(self.number_of_individuals)"),
+        ]},
+        loop_invariants={0: [
+            "self.number_in_service <= old(self.number_in_service) + _i and self.number_in_service >= old(self.number_in_service)",
+            "self.number_of_individuals == old(self.number_of_individuals)",
+            "ref_eq(self.schedule, old(self.schedule)) and as_obj(self.schedule, 'Slotted').slot_size == old(as_obj(self.schedule, 'Slotted').slot_size) "
+            "and as_obj(self.schedule, 'Slotted').capacitated == old(as_obj(self.schedule, 'Slotted').capacitated)",
+            "gen_pos(as_obj(self.schedule, 'Slotted').schedule_generator) == old(gen_pos(as_obj(self.schedule, 'Slotted').schedule_generator))",
+        ]},
+        props=["C12", "C02"])
